@@ -13,7 +13,8 @@ EXPLAIN = ('interchain token (structural, necessary clauses): (R1) every balance
            'through a definition guarded by sequence <= expiration (usable through the expiration ledger, worthless after); '
            'approve refuses exactly when amount > 0 and expiration < sequence; (R6) each mutating entry emits exactly one '
            'standard token event naming the entry\'s true parties before every success exit; set_admin names the owner read '
-           'BEFORE the owner slot is overwritten.')
+           'BEFORE the owner slot is overwritten; (R7) only current minters can mint: every mint credit is must-guarded by the stored Minter(acting minter) '
+           'entry and that minter\'s authorisation (the owner-mint entry acts as the stored owner).')
 NOT_DECIDED = ('the history invariant (sum of balances = minted - burned) is decided only through its inductive step: R2 + the read-modify-write '
                'freshness rule show that every successful transfer debits and credits the same amount (also when from == to), mint only credits, burn only '
                'debits, and R3 that nothing else writes a balance; the induction itself and TTL behaviour of temporary storage are not mechanised.')
@@ -232,6 +233,26 @@ def check(P, rep):
                       'the event is emitted exactly once before every success exit', esite(g, e))
         others = [e for e in effs if e not in bw and e not in aw and e not in evs]
         rep.check(not others, 'C12.R3', '%s:no-other-effects' % en, 'no other state change in this entry', entry_id(g), '; '.join(x.describe() for x in others)[:200])
+    # R7 only current minters can mint: every credit of mint / mint_from is guarded by stored membership of the acting minter and its auth
+    for en in ('mint_from', 'mint'):
+        if en not in c.entries:
+            continue
+        g = P.graph(CN, en)
+        credits = [e for e in state_effects(g) if e.kind in ('sw', 'supd') and key_variant(e.key)[0] == 'Balance']
+        if en == 'mint_from':
+            who = lambda t: core(t) == g.P(1)
+        else:
+            who = lambda t: is_sget(t, 'instance', 'Interfaces_Owner')
+        member = guard_sel(g, lambda c_: c_[0] == 'present' and c_[1][0] == 'skey' and c_[1][1] == 'instance' and key_variant(c_[1][2])[0] == 'Minter'
+                           and who(key_variant(c_[1][2])[1][0]))
+        rep.floor('%s minter-membership guard' % en, len(member), 1)
+        an = auth_nodes(g, who)
+        for e in credits:
+            ok, _, w = mg(g, [e.node], (), edges(member)) if member else (False, None, witness(g, e.node))
+            rep.check(ok, 'C12.R7', '%s:minter-member' % en, 'the mint credit is must-guarded by stored Minter(acting minter) present (only current minters can mint)',
+                      esite(g, e), None, w)
+            ok, _, w = mg(g, [e.node], an)
+            rep.check(ok, 'C12.R7', '%s:minter-auth' % en, 'the mint credit is must-guarded by the acting minter\'s require_auth', esite(g, e), None, w)
     # approve: write shape + expiry precondition
     if 'approve' in c.entries:
         g = P.graph(CN, 'approve')
